@@ -164,6 +164,10 @@ def mix_stream(chk, rng, quick):
     # U+0001 separates the pieces in the line protocol: a source that denotes this character (`&#1;`) cannot be carried (false alarm of thorough seed 41)
     keep = [i for i, s_ in enumerate(srcs) if not re.search(r"&#0*1;|&#[xX]0*1;|\x01", s_)]
     srcs, wellformed = [srcs[i] for i in keep], [wellformed[i] for i in keep]
+    # values that are one string literal binding (printed like text, except a blank one, which stays a binding)
+    for lit in ("{{ ' ' }}", "{{ '' }}", "{{ 'a' }}", '{{ "\\n" }}', "{{ '\\t \\n' }}", "{{ ' a ' }}", " ", "{{ '{' }}", "{{ '&' }}"):
+        srcs.append(lit)
+        wellformed.append(False)
     real = core.run_harness([core.req("mix_value", s_) for s_ in srcs])
     if real and real[0] == "bad-op":
         chk.notes.append("harness has no mix_value op: mixture correspondence skipped")
@@ -344,6 +348,13 @@ def run(chk):
                '<v title="Search &quot;{{k}}&quot;"/>', "<v title='it&#39;s \"{{k}}\"'/>", '<v>{{a}}{{b}}</v>', '<v> {{a}} </v>', '<v>\n{{a}}\n</v>']:
         srcs.append(t_)
         nshape += 1
+    # children after a text that prints as nothing (a blank literal binding, a comment) in every kind of body
+    for first in ('{{ "" }}', "{{ ' ' }}", "<!-- c -->{{ '' }}", '{{ "" }}<!-- c -->'):
+        for rest in ("<text>{{b}}</text>", "t{{a}}", "<v/><v title=\"{{a}}\"/>"):
+            srcs.append("<view>%s%s</view>" % (first, rest))
+            srcs.append('<block wx:for="{{l}}">%s%s</block><v wx:if="{{c}}">%s%s</v><v wx:else>%s%s</v>' % (first, rest, first, rest, first, rest))
+            srcs.append('<template name="t9">%s%s</template><template is="t9" data="{{a, b}}"/>' % (first, rest))
+            nshape += 3
     # a binding followed by static text (the value parser appends the text to a literal it adds itself), and unquoted attribute values
     for e in ["x + 's'", "'s' + x", "x + ''", "a + b + 't'", "x + 's' + 't'", "(x + 's')", "x - 's'", "f(x) + '&'"]:
         srcs.append('<v title="{{ %s }}q&amp;" data-k="{{ %s }}{{ %s }}z">{{ %s }}t&lt;</v>' % (e, e, e, e))
@@ -378,6 +389,7 @@ def run(chk):
     second = core.run_harness([core.req("group", json.dumps({"files": [["p", s1]]})) for s1 in s1s], timeout=3600)
     rreqs, rmeta = [], []
     nb = 0
+    nbeh = 0
     for (i, o0), s1, a in zip(meta, s1s, second):
         t = srcs[i]
         wellformed = i % 4 != 3 or i >= n
@@ -434,7 +446,8 @@ def run(chk):
                 cls = "comment-between-texts-dropped"
             elif json.dumps(static_events(drop_empty_text(merge_texts(ta)))) == json.dumps(static_events(drop_empty_text(merge_texts(tb)))):
                 cls = "comment-between-texts-dropped+other-known"
-            if nb <= 6 or cls != "behaviour":
+            nbeh = nbeh + 1 if cls == "behaviour" else nbeh
+            if nbeh <= 6 or cls != "behaviour":      # (the cap is on unclassified mismatches only: classified ones are matched against the known findings)
                 chk.violation("input", "the re-parsed printed template renders / updates differently from the original", classification=cls,
                               template=srcs[i][:3000], printed=s1[:3000], steps=steps, original=ta, reparsed=tb)
     # ---- with scope-name mangling -------------------------------------------------------------------------
